@@ -11,7 +11,8 @@ import typing
 from pathlib import Path
 from typing import Optional, Tuple
 
-from jedi.inference.compiled.getattr_static import getattr_static
+from jedi.inference.compiled.getattr_static import getattr_static, \
+    lookup_special_method_static
 
 ALLOWED_GETITEM_TYPES = (str, list, tuple, bytes, bytearray, dict)
 
@@ -178,7 +179,12 @@ class DirectObjectAccess:
     def _create_access_path(self, obj) -> AccessPath:
         return create_access_path(self._inference_state, obj)
 
-    def py__bool__(self):
+    def py__bool__(self, *, safe=True):
+        if safe and not _has_builtin_bool(self._obj):
+            # Get rid of side effects, we won't call custom `__bool__`s and
+            # `__len__`s. None signalizes that we don't know the bool value.
+            return None
+
         return bool(self._obj)
 
     def py__file__(self) -> Optional[Path]:
@@ -238,14 +244,14 @@ class DirectObjectAccess:
         return self._create_access_path(self._obj[index])
 
     def py__iter__list(self):
-        try:
-            iter_method = self._obj.__iter__
-        except AttributeError:
+        # Like `iter()` we only look at the type and avoid executing anything.
+        iter_method = lookup_special_method_static(self._obj, '__iter__')
+        if iter_method is None:
             return None
-        else:
-            p = DirectObjectAccess(self._inference_state, iter_method).get_return_annotation()
-            if p is not None:
-                return [p]
+
+        p = DirectObjectAccess(self._inference_state, iter_method).get_return_annotation()
+        if p is not None:
+            return [p]
 
         if type(self._obj) not in ALLOWED_GETITEM_TYPES:
             # Get rid of side effects, we won't call custom `__getitem__`s.
@@ -323,11 +329,15 @@ class DirectObjectAccess:
         return dir(self._obj)
 
     def has_iter(self):
-        try:
-            iter(self._obj)
-            return True
-        except TypeError:
-            return False
+        # `iter(self._obj)` would execute a custom `__iter__`, so just check
+        # statically if one of the iteration protocols is supported.
+        iter_method = lookup_special_method_static(self._obj, '__iter__', _sentinel)
+        if iter_method is _sentinel:
+            # The old sequence protocol.
+            getitem = lookup_special_method_static(self._obj, '__getitem__', _sentinel)
+            return getitem is not _sentinel
+        # `__iter__ = None` declares that a class is not iterable.
+        return iter_method is not None
 
     def is_allowed_getattr(self, name, safe=True) -> Tuple[bool, bool, Optional[AccessPath]]:
         # TODO this API is ugly.
@@ -565,6 +575,20 @@ class DirectObjectAccess:
             for name in self.dir()
         )
         return self.needs_type_completions(), tuples
+
+
+def _has_builtin_bool(obj):
+    """
+    ``bool(obj)`` calls ``__bool__`` or, if that is not defined, ``__len__``.
+    Returns True if only the implementation of a builtin type is executed.
+    """
+    for name in ('__bool__', '__len__'):
+        method = lookup_special_method_static(obj, name, _sentinel)
+        if method is not _sentinel:
+            # The methods of builtin types are slot wrappers.
+            return type(method) is WrapperDescriptorType
+    # Without these methods objects are always considered to be true.
+    return True
 
 
 def _is_class_instance(obj):
